@@ -515,7 +515,7 @@ Outcome exec_c12(const C12Case& c, bool keep_log, Stats* stats) {
   cfg.seed = c.sched_seed;
   cfg.chooser = c.explicit_schedule ? CH_EXPLICIT : (c.bystander ? CH_UNIFORM : CH_SEQUENTIAL);
   cfg.schedule = c.schedule;
-  cfg.step_cap = 2000000;
+  cfg.step_cap = static_cast<int>(6 * bytes.size() + 20000);   // a compliant loader makes O(size) stream calls
   set_phase("tasks");
   SchedResult sr = run_tasks(bodies, cfg);
   set_phase("oracle");
